@@ -180,15 +180,16 @@ def greenery_str(rx):
 def greenery_wrong(rx):
     """does the third-party regex library's OWN automaton for rx (before cpppo translates it) differ from Python's re on short strings?"""
     if rx not in _GREENERY:
-        import greenery.lego, re as _re
+        import greenery.lego, greenery.fsm, re as _re
         f = greenery.lego.parse(rx).fsm()
         bad = False
         for n in range(0, 5):
             for t in itertools.product('abc', repeat=n):
                 w = ''.join(t)
                 try:
-                    g = f.accepts(w)
-                except KeyError:
+                    # symbols the automaton does not name individually travel on its "anything else" edge
+                    g = f.accepts([c if c in f.alphabet else greenery.lego.otherchars for c in w])
+                except Exception:
                     g = False
                 if g != bool(_re.fullmatch(rx, w)):
                     bad = True; break
